@@ -47,9 +47,9 @@ class Net:
         w = self.w
         w.opcount += 1
         n = w.opcount
-        w.log("op", n, kind, wire_id, w.ctx_name()) if not info else w.log(
-            "op", n, kind, wire_id, w.ctx_name(), *info
-        )
+        name = w.ctx_name()
+        w.log("op", n, kind, wire_id, name, w.cur_token.get(name),
+              w.ctx_site() if w.log_sites else None, *info)
         f = w.faults_by_op.get(n)
         fault = None
         if f is not None:
